@@ -135,6 +135,12 @@ func (ra *RestAgent) receiveBundleMessage(msg BundleMessage) {
 	for _, uuid := range uuids {
 		ra.mailboxMutex.Lock()
 
+		// The client might have been unregistered since the clients were looked at above.
+		if _, registered := ra.clients.Load(uuid); !registered {
+			ra.mailboxMutex.Unlock()
+			continue
+		}
+
 		var bundles []bpv7.Bundle
 		if val, ok := ra.mailbox.Load(uuid); !ok {
 			bundles = []bpv7.Bundle{msg.Bundle}
@@ -203,9 +209,9 @@ func (ra *RestAgent) handleUnregister(w http.ResponseWriter, r *http.Request) {
 		log.WithError(jsonErr).Warn("Failed to parse REST unregistration request")
 	} else {
 		log.WithField("uuid", unregisterRequest.UUID).Info("Unregister REST client")
-		ra.clients.Delete(unregisterRequest.UUID)
-
+		// Both are removed at once; a delivery in progress either finds the client or does not fill a new inbox.
 		ra.mailboxMutex.Lock()
+		ra.clients.Delete(unregisterRequest.UUID)
 		ra.mailbox.Delete(unregisterRequest.UUID)
 		ra.mailboxMutex.Unlock()
 	}
